@@ -71,9 +71,15 @@ def run(rep, pdb, tier):
     if is_ite:
         cond, th, el = end[1], end[2], end[3]
         from .terms import lin_sub
-        is_last = cond[0] == "op" and cond[1] in ("==", "!=") and lin_sub(cond[2], cond[3]) in (lin_sub(i, lin_add(T, num(-1))), lin_sub(lin_add(T, num(-1)), i))
-        lastc = is_last and cond[1] == "=="          # i == T-1, i + 1 == T, T - 1 == i, ...
-        notlast = is_last and cond[1] == "!="
+        d_fw, d_bw = lin_sub(i, lin_add(T, num(-1))), lin_sub(lin_add(T, num(-1)), i)
+        cop = cond[1] if cond[0] == "op" else None
+        dd = lin_sub(cond[2], cond[3]) if cop in ("==", "!=", "<", ">=", ">", "<=") else None
+        if dd == d_bw and cop in ("<", ">=", ">", "<="):
+            cop, dd = {"<": ">", ">": "<", "<=": ">=", ">=": "<="}[cop], d_fw         # T - 1 > i  is  i < T - 1
+        is_last = dd in (d_fw, d_bw) and cop in ("==", "!=", "<", ">=")
+        # inside `for i in 0..T`: i <= T-1, so `i >= T-1` (i + 1 >= T) is `i == T-1` and `i < T-1` (i + 1 < T) is `i != T-1`
+        lastc = is_last and cop in ("==", ">=")          # i == T-1, i + 1 == T, T - 1 == i, ...
+        notlast = is_last and cop in ("!=", "<")
         if notlast:
             th, el, lastc = el, th, True
         nxt = subst_term(start, {i: lin_add(i, num(1))})
@@ -92,7 +98,8 @@ def run(rep, pdb, tier):
     rep.add("same-window", "both operands are sliced with the same start..end", same, n1, "%s[%s] vs %s[%s]" % (show(b1, ctx), show(r1, ctx), show(b2, ctx), show(r2, ctx)))
     # ---- worker closure: captures, purity, co-indexed accumulation
     caps = worker.get("captures", [])
-    caps_ok = len(caps) == 2 and all(c["mode"] == "ByRef(Immutable)" and c["ty"] == "[f64]" for c in caps) and not worker.get("move")
+    # shared borrows of the two slices (`||` borrowing [f64]), or the two shared slice references themselves moved in (`move ||` with &[f64]): read-only either way
+    caps_ok = len(caps) == 2 and all((c["mode"] == "ByRef(Immutable)" and c["ty"] == "[f64]") or (c["mode"] == "ByValue" and c["ty"] == "&[f64]") for c in caps)
     calls = []
     for n in walk(worker["body"]):
         if is_call_like(n) and not in_macro(n) and n.get("k") != "Index":
